@@ -444,11 +444,11 @@ def large_cases(rng, count, max_arity=40, chains=True, max_chain=130):
             out.append((rng.choice([('Recip', sm), ('Log', sm, math.e), sm]), [(k_, 1 + 1.0 / (k - 1)) for k_ in pool]))
         elif r < 0.8:
             # towers of odd roots: the product of the indices exceeds 2^53 (a float cannot hold it: parities get lost)
-            ns = [rng.choice([3, 5, 7, 9, 11, 13, 15, 21, 33, 101]) for _ in range(rng.randint(12, 20))]
+            ns = [rng.choice([9, 15, 21, 27, 33, 45, 81, 101, 7, 5, 3]) for _ in range(rng.randint(12, 18))]
             t = ('V', pool[0])
             for n_ in ns:
                 t = ('NthRoot', t, n_)
-            e = rng.choice([t, ('NthPow', t, 4), ('NthPow', t, 3), ('Mul', [t, ('V', pool[0])]), ('Sin', t)])
+            e = rng.choice([t, ('NthPow', t, 4), ('NthPow', t, 3), ('NthPow', t, 9), ('NthPow', t, 15), ('Mul', [t, ('V', pool[0])]), ('Sin', t)])
             for xv in (-2, -0.5, 2, 0.25):
                 out.append((e, [(k_, xv) for k_ in pool]))
         elif chains:
